@@ -106,11 +106,14 @@ func findCommodityReferences(symbol string, resolved *include.ResolvedJournal, c
 			tx := &journal.Transactions[i]
 			for j := range tx.Postings {
 				p := &tx.Postings[j]
-				if p.Amount != nil && p.Amount.Commodity.Symbol == symbol {
-					locations = append(locations, protocol.Location{
-						URI:   pathToURI(filePath),
-						Range: *astRangeToProtocol(p.Amount.Commodity.Range),
-					})
+				// a commodity occurs in the amount, the cost and the balance assertion of a posting
+				for _, amount := range postingAmounts(p) {
+					if amount.Commodity.Symbol == symbol {
+						locations = append(locations, protocol.Location{
+							URI:   pathToURI(filePath),
+							Range: *astRangeToProtocol(amount.Commodity.Range),
+						})
+					}
 				}
 			}
 		}
@@ -172,4 +175,19 @@ func locationsEqual(a, b protocol.Location) bool {
 		a.Range.Start.Character == b.Range.Start.Character &&
 		a.Range.End.Line == b.Range.End.Line &&
 		a.Range.End.Character == b.Range.End.Character
+}
+
+// postingAmounts lists the amounts written on a posting line: amount, cost, balance assertion.
+func postingAmounts(p *ast.Posting) []*ast.Amount {
+	var amounts []*ast.Amount
+	if p.Amount != nil {
+		amounts = append(amounts, p.Amount)
+	}
+	if p.Cost != nil {
+		amounts = append(amounts, &p.Cost.Amount)
+	}
+	if p.BalanceAssertion != nil {
+		amounts = append(amounts, &p.BalanceAssertion.Amount)
+	}
+	return amounts
 }
